@@ -58,7 +58,8 @@ fn source_tree(targets: &[String]) -> Tree {
     t.insert("sib_file".into(), Node::file(b"sibling", T0 + 3).with_mode(0o4711).with_owner(1, 2));
     for (i, tg) in targets.iter().enumerate() {
         t.insert(
-            format!("l{i}"),
+            // the fourth link lives inside a directory
+            if i == 3 { "sib_dir/l3".to_string() } else { format!("l{i}") },
             Node::symlink(tg, T0 + 10 + i as i64).with_owner(2, 1).with_mtime(T0 + 10 + i as i64, 777),
         );
     }
@@ -266,8 +267,7 @@ fn tuples(max_len: usize) -> Vec<Vec<usize>> {
 
 pub fn run(report: &Report, budget: &Budget) {
     let thorough = report.thorough();
-    let _ = thorough;
-    let cases = tuples(3);
+    let cases = tuples(if thorough { 4 } else { 3 });
     let scratches: Vec<Scratch> = (0..crate::util::n_workers()).map(|_| Scratch::new("c16")).collect();
     let n = AtomicU64::new(0);
     let ns = AtomicU64::new(0);
